@@ -27,12 +27,17 @@ Agrees(o, st) == AgreesBut(o, st, TRUE)
 
 \* ---------------------------------------------------------------- graph cases
 GraphCheck(c) ==
-  LET w == [tree |-> c.tree, main |-> c.main, mods |-> c.mods]
+  \* expectation: the pinned implementation (a spawned thread imports into a COPY of the module table); where the
+  \* property's design (shared table) gives another run, the case is an instance of the known finding
+  \* clone-imports-not-shared and is printed as <<"KNOWNCLONE", id>>
+  LET w == [tree |-> c.tree, main |-> c.main, mods |-> c.mods, shares |-> FALSE]
       st == Run(w)
+      design == Run([w EXCEPT !.shares = TRUE])
       st2 == RunFrom(w, Again(w, st))
       Kind(o) == IF o.outside # <<>> THEN "escape" ELSE "diverge"
   IN IF st.status = "unknown" \/ st2.status = "unknown" THEN PrintT(<<"UNKNOWN", c.id>>)
-     ELSE /\ (Agrees(c.obs.local, st) \/ PrintT(<<"MISMATCH", c.id, "local", Kind(c.obs.local), ToJson(Summary(st))>>))
+     ELSE /\ (Summary(design) = Summary(st) \/ ~Agrees(c.obs.local, st) \/ PrintT(<<"KNOWNCLONE", c.id>>))
+          /\ (Agrees(c.obs.local, st) \/ PrintT(<<"MISMATCH", c.id, "local", Kind(c.obs.local), ToJson(Summary(st))>>))
           /\ (Agrees(c.obs.fs, st) \/ PrintT(<<"MISMATCH", c.id, "fs", Kind(c.obs.fs), ToJson(Summary(st))>>))
           /\ (Agrees(c.obs.again, st2) \/ PrintT(<<"MISMATCH", c.id, "again", Kind(c.obs.again), ToJson(Summary(st2))>>))
           \* no importer configured (working directory inside the module tree): as if no module file existed
